@@ -29,7 +29,7 @@ KINDS = [
     (re.compile(r'recommendation not met|recommends'), 'recommends'),
 ]
 SAFETY_KINDS = {'pre', 'overflow', 'divzero', 'panic', 'cast'}
-UNDECIDED_PAT = re.compile(r'[Rr]esource limit|rlimit|timed? ?out|not supported|unsupported|The verifier does not yet support|internal error|panicked')
+UNDECIDED_PAT = re.compile(r'loop must have a decreases clause|[Rr]esource limit|rlimit|timed? ?out|not supported|unsupported|The verifier does not yet support|internal error|panicked')
 
 
 def _span_in_file(sp, fname):
